@@ -47,6 +47,8 @@ func (p recvProp) Key(inp interface{}) (string, bool) {
 	}
 	if in.WS {
 		hist("transport:websocket")
+	} else if in.Logged {
+		hist("transport:xmpp-read-path-with-logger")
 	} else {
 		hist("transport:stub")
 	}
@@ -284,7 +286,7 @@ func (p recvProp) Oracle(inp interface{}, obs Sx) (string, string) {
 
 func init() {
 	register(recvProp{id: "C05", w: 8, gen: genC05,
-		rule: "random inbound histories (0-60 items over message/presence/iq of each type with varied content, <r/>, <a/>, features and other non-stanza elements, stream errors, stream close, rejected elements), client with SM on/off and component, read chunk sizes 1/7/unlimited, write faults on the answers (one write, several, or every write from some point on); histories around a stream error whose event handler leaves the connection alone or replaces it as a StreamManager does; the keepalive quit channel sampled whenever the receive goroutine enters a callback or a transport call; one case in nine over the real WebSocket transport (loopback websocket server, one frame per element, frames up to 28 kB); distinct = role/sm/fault + item-kind sequence; non-trivial = >= 2 stanzas and (component or >= 1 <r/>)"})
+		rule: "random inbound histories (0-60 items over message/presence/iq of each type with varied content, <r/>, <a/>, features and other non-stanza elements, stream errors, stream close, rejected elements), client with SM on/off and component, read chunk sizes 1/7/unlimited, write faults on the answers (one write, several, or every write from some point on); histories around a stream error whose event handler leaves the connection alone or replaces it as a StreamManager does; the keepalive quit channel sampled whenever the receive goroutine enters a callback or a transport call; one history in seven read through the real XMPPTransport read path (traffic logger, buffered decoder) over a scripted net.Conn whose last bytes arrive together with the read error; one case in nine over the real WebSocket transport (loopback websocket server, one frame per element, frames up to 28 kB); distinct = role/sm/fault + item-kind sequence; non-trivial = >= 2 stanzas and (component or >= 1 <r/>)"})
 }
 
 func genC05(r *rand.Rand, tier string) []interface{} {
@@ -369,6 +371,22 @@ func genC05(r *rand.Rand, tier string) []interface{} {
 		}
 		if r.Intn(4) == 0 {
 			in.WFrom = 1 + r.Intn(2)
+		}
+		out = append(out, in)
+	}
+	// histories read through the real XMPPTransport read path (traffic logger + buffered decoder) over a scripted
+	// net.Conn: in two of three the last bytes arrive TOGETHER with the read error (as crypto/tls hands out the last
+	// record and the close_notify behind it in one Read): they were completely received and must still be routed and
+	// answered; the stream ends after the last element or is cut at a random offset
+	for i := 0; i < n/6+6; i++ {
+		in := recvIn{Cut: -1, Logged: true, ErrWithData: i%3 != 0, SM: r.Intn(2) == 0, Inb: []int{0, 4}[r.Intn(2)]}
+		in.Chunk = []int{0, 0, 7, 64, 4096}[r.Intn(5)]
+		in.Items = genItems(r, 1+r.Intn(12), false, false)
+		if i%4 == 3 {
+			in.Cut = r.Intn(len(in.body()) + 1)
+		}
+		if r.Intn(8) == 0 {
+			in.WFail = 1 + r.Intn(2)
 		}
 		out = append(out, in)
 	}
